@@ -9,9 +9,9 @@ namespace ScVerif.C05
 theorem writeWith_updater (resW : Option (List Path)) (opts : List WOpt) :
     ((computeWriteConfig opts).fieldUpdater resW).update = specUpdate opts ∧
     ((computeWriteConfig opts).fieldUpdater resW).reset = specReset opts := by
-  constructor
-  · show (computeWriteConfig opts).update = _; exact cwc_update opts
-  · show (computeWriteConfig opts).reset = _; exact cwc_reset opts
+  unfold WriteRequest.fieldUpdater
+  rw [fieldUpdater_eq]
+  exact ⟨cwc_update opts, cwc_reset opts⟩
 
 /-- One write whose masks avoid the field `k` keeps it. -/
 theorem merge_avoids (S : Schema) (ty : Nat) (u : Updater) (dst src : Fields) (r : Merged) (k : Name)
